@@ -18,8 +18,8 @@ ID = "C18"
 CASES = {"quick": 3000, "thorough": 40000}
 FLOOR = {"quick": 2700, "thorough": 36000}
 FLOOR_COUNTERS = {
-    "quick": {"reused_linear_estimator_objects": 250, "competitors_tried": 25000, "planted_maps": 500, "padded_fits": 1200, "projector_fits": 1200, "estimators_with_a_past": 900, "one_dimensional_targets": 50, "other_units": 600},
-    "thorough": {"reused_linear_estimator_objects": 3500, "competitors_tried": 350000, "planted_maps": 7000, "padded_fits": 16000, "projector_fits": 16000, "estimators_with_a_past": 12000, "one_dimensional_targets": 700, "other_units": 8000},
+    "quick": {"reused_linear_estimator_objects": 250, "competitors_tried": 25000, "planted_maps": 400, "padded_fits": 1200, "projector_fits": 1200, "estimators_with_a_past": 900, "one_dimensional_targets": 50, "other_units": 600, "configured_by_attribute_assignment": 1000, "edge_shapes": 600, "reduced_space_checks": 900},
+    "thorough": {"reused_linear_estimator_objects": 3500, "competitors_tried": 350000, "planted_maps": 7000, "padded_fits": 16000, "projector_fits": 16000, "estimators_with_a_past": 12000, "one_dimensional_targets": 700, "other_units": 8000, "configured_by_attribute_assignment": 14000, "edge_shapes": 8000, "reduced_space_checks": 12000},
 }
 RULE = (
     "case = X (n 6-40, f 1-8), y (p 1-8; noisy linear, pure noise, or planted y = X A with A a (partial) isometry), mode "
@@ -38,14 +38,23 @@ ASSUMPTIONS = [
 def gen(rng, tier, index):
     n = int(rng.integers(9, 41))
     f, p = int(rng.integers(1, 9)), int(rng.integers(1, 9))
+    edge = gens.pick(rng, (None,) * 8 + ("one_sample", "two_samples", "constant_first_feature", "zero_first_feature"))
+    if edge == "one_sample":
+        n = 1
+    elif edge == "two_samples":
+        n = 2
     rel = index % 3
     if rel == 0:
         p = f
     elif rel == 1 and f == p:
         p = f + 1
-    X = gens.well_conditioned(rng, n, f, cond=1e2) * np.sqrt(n)
+    X = gens.well_conditioned(rng, n, f, cond=1e2) * np.sqrt(n) if n > f else rng.normal(size=(n, f))
     if rng.random() < 0.5:
         X = X + rng.normal(size=f)
+    if edge == "constant_first_feature":
+        X[:, 0] = 1.0  # a bias column
+    elif edge == "zero_first_feature":
+        X[:, 0] = 0.0
     kind = gens.pick(rng, ("planted", "noisy", "noise"))
     A = None
     if kind == "planted":
@@ -66,6 +75,8 @@ def gen(rng, tier, index):
         uy = ux if kind == "planted" else float(2.0 ** int(rng.integers(-40, 20)))
         X, y = X * ux, y * uy
     return {
+        "edge": edge,
+        "how": gens.pick(rng, ("ctor", "ctor", "setattr", "setattr_after_decoy")),
         "units": [ux, uy],
         "y1d": bool(p == 1 and rng.random() < 0.6),
         "past": bool(rng.random() < 0.4),
@@ -106,7 +117,22 @@ def run(case, j):
         decoy = OrthogonalRegression(use_orthogonal_projector=True, linear_estimator=lin)
         decoy.fit(rng.normal(size=X.shape), rng.normal(size=y.shape))
         j.note("reused_linear_estimator_objects")
-    est = OrthogonalRegression(use_orthogonal_projector=proj, linear_estimator=lin)
+    how = case.get("how", "ctor")
+    if how == "ctor":
+        est = OrthogonalRegression(use_orthogonal_projector=proj, linear_estimator=lin)
+    else:
+        # the class has no set_params: an existing object is re-configured by assigning its public attributes
+        from sklearn.linear_model import Ridge as _Ridge
+
+        est = OrthogonalRegression(use_orthogonal_projector=not proj, linear_estimator=_Ridge(alpha=50.0)) if how == "setattr_after_decoy" else OrthogonalRegression()
+        est.use_orthogonal_projector = proj
+        est.linear_estimator = lin
+        j.note("configured_by_attribute_assignment")
+    edge = case.get("edge")
+    if edge:
+        j.note("edge_shapes")
+        j.tag(f"edge:{edge}")
+        A = None  # a planted map is not identifiable from rank-deficient X
     if case.get("past"):
         # the estimator itself has a past: fitted on other data with the same number of samples and the same padded
         # size, but the widths of the two sides exchanged / enlarged
@@ -155,6 +181,18 @@ def run(case, j):
         pz = np.asarray(est.predict(Z))
         j.close("predict(Z) == Z @ Omega", pz.reshape(len(Z), -1), Z @ Om, 1e-12 * max(float(np.abs(Z).max()), 1e-300))
         j.ok("predictions never have a larger norm than their inputs", bool(np.all(np.linalg.norm(pz.reshape(len(Z), -1), axis=1) <= np.linalg.norm(Z, axis=1) * (1 + 1e-10))))
+        # the reduced spaces are those of the CONFIGURED linear fit (scikit-learn's estimator, fitted here)
+        from sklearn.linear_model import LinearRegression as _LR
+
+        ref = _linear(case["est"]) or _LR()
+        ref.fit(X, yin)
+        Wref = np.reshape(ref.coef_.T, (f, -1))
+        Ur, svr, Vtr = np.linalg.svd(Wref, full_matrices=False)
+        if svr[r - 1] > 1e-8 * max(svr[0], 1e-300):
+            out_cols = Om - Ur @ (Ur.T @ Om)
+            out_rows = Om - (Om @ Vtr.T) @ Vtr
+            j.ok("Omega acts between the reduced spaces of the configured linear fit", float(np.abs(out_cols).max()) <= 1e-8 and float(np.abs(out_rows).max()) <= 1e-8, {"outside_column_space": float(np.abs(out_cols).max()), "outside_row_space": float(np.abs(out_rows).max()), "estimator": case["est"]})
+            j.note("reduced_space_checks")
         # reduced bases of the fitted map
         U, _, Vt = np.linalg.svd(Om, full_matrices=False)
         R0 = U.T @ Om @ Vt.T
